@@ -4,12 +4,19 @@ import json, os, sys
 
 def replay(path, g):
     rp = json.load(open(path, encoding='utf-8'))
+    if 'event' not in rp:
+        # a driver process that was killed (stack overflow, watchdog): re-observed by re-running the check
+        drv = rp.get('driver', {})
+        print('replaying %s clause %s' % (rp.get('property'), rp.get('clause')))
+        print('the driver did not return; re-observe with:  ./check %s --tier %s --seed %s' % (rp.get('property'), drv.get('tier', 'quick'), drv.get('seed', 0)))
+        print('driver command: %s %s' % (drv.get('exe'), ' '.join(drv.get('args', []))))
+        return 0
     ev, hdr, drv = rp['event'], rp['header'], rp['driver']
     be = drv.get('be') or hdr.get('be', 'f64')
     reg = drv.get('reg', 'cat')
     print('replaying %s clause %s (%s, registry %s)' % (rp['property'], rp['clause'], be, reg))
     kind = ev.get('ev')
-    if reg == 'py' or kind in ('Compile', 'Config', 'GenBuild', 'Format', 'FormatUnit', 'Serde', 'SI', 'Type', 'Unit'):
+    if reg == 'py' or kind in ('Compile', 'Config', 'GenBuild', 'Format', 'FormatUnit', 'Serde', 'SerdeNames', 'SI', 'Type', 'Unit'):
         print('this event kind is re-observed by re-running its driver:  ./check %s --tier %s --seed %s' % (rp['property'], drv.get('tier', 'quick'), drv.get('seed', 0)))
         if 'program' in ev:
             print('--- program ---')
